@@ -335,8 +335,8 @@ Print Assumptions C08_disconnect_window_refuted.
    without it — so C08_coa_admission, C08_coa_mutable_only and the replay bounds carry over to every policy — and on a
    request with a regular Message-Authenticator the choice does not exist. *)
 Theorem C08_coa_any_policy_only_restricts :
-  forall md5raw fl rej cfg now src bus raw e,
-    effect (coa_step_g md5raw fl rej cfg now src bus raw) = Some e ->
+  forall md5raw fl rej orep cfg now src bus raw e,
+    effect (coa_step_g md5raw fl rej orep cfg now src bus raw) = Some e ->
     effect (coa_step md5raw fl cfg now src bus raw) = Some e.
 Proof. exact coa_step_g_effect_any. Qed.
 Print Assumptions C08_coa_any_policy_only_restricts.
@@ -344,7 +344,7 @@ Print Assumptions C08_coa_any_policy_only_restricts.
 Theorem C08_coa_policy_irrelevant_for_regular_ma :
   forall md5raw fl rej cfg now src bus raw,
     ma_irregular (truncate raw) = false ->
-    coa_step_g md5raw fl rej cfg now src bus raw = coa_step md5raw fl cfg now src bus raw.
+    coa_step_g md5raw fl rej None cfg now src bus raw = coa_step md5raw fl cfg now src bus raw.
 Proof. exact coa_step_g_regular. Qed.
 Print Assumptions C08_coa_policy_irrelevant_for_regular_ma.
 
@@ -353,9 +353,9 @@ Print Assumptions C08_coa_policy_irrelevant_for_regular_ma.
 Definition ex_dm_badma : bytes := sign_req [107] [40; 9; 0; 35] [44; 4; 115; 49; 55; 6; 0; 0; 3; 232; 80; 5; 1; 2; 3].
 Example C08_admissible_choice_nonvacuous :
   ma_irregular ex_dm_badma = true /\ ma_irregular ex_dm = false /\
-  effect (coa_step_g toy head false ex_cfg 1100 2130706434 0 ex_dm_badma) = Some (EvTerminate (1, [115; 49])) /\
-  coa_step_g toy head true ex_cfg 1100 2130706434 0 ex_dm_badma = ODropInvalid 0 [SInvalid] /\
-  effect (coa_step_g toy head true ex_cfg 1100 2130706434 0 ex_dm) = Some (EvTerminate (1, [115; 49])).
+  effect (coa_step_g toy head false None ex_cfg 1100 2130706434 0 ex_dm_badma) = Some (EvTerminate (1, [115; 49])) /\
+  coa_step_g toy head true None ex_cfg 1100 2130706434 0 ex_dm_badma = ODropInvalid 0 [SInvalid] /\
+  effect (coa_step_g toy head true None ex_cfg 1100 2130706434 0 ex_dm) = Some (EvTerminate (1, [115; 49])).
 Proof. vm_compute. repeat split; reflexivity. Qed.
 Print Assumptions C08_admissible_choice_nonvacuous.
 
@@ -379,7 +379,7 @@ Print Assumptions C08_coa_single_execution.
 Definition ex_dm_user : bytes := sign_req [107] [40; 5; 0; 30] [1; 4; 97; 108; 55; 6; 0; 0; 3; 232].
 Definition ex_coa_a : bytes := sign_req [107] [43; 6; 0; 36] [1; 4; 97; 108; 27; 6; 0; 0; 14; 16; 55; 6; 0; 0; 3; 232].
 Definition ex_coa_b : bytes := sign_req [107] [43; 7; 0; 36] [1; 4; 97; 108; 27; 6; 0; 0; 0; 60; 55; 6; 0; 0; 3; 232].
-Definition inp (now : Z) (raw : bytes) : coa_input := (now, 2130706434, 0, raw, false).
+Definition inp (now : Z) (raw : bytes) : coa_input := (now, 2130706434, 0, raw, false, None).
 
 Example C08_coa_single_execution_nonvacuous :
   f_dedup head = true /\
@@ -467,6 +467,41 @@ Theorem C08_own_replies_verify :
 Proof. exact own_replies_verify. Qed.
 Print Assumptions C08_own_replies_verify.
 
+(* The ORDER of the attributes of a reply is a free choice (the property only asks that the reply verifies).  The
+   signing algorithm is order-independent: for ANY attribute list with the Message-Authenticator placeholder at ANY
+   position (no Message-Authenticator-like attribute before it), and for any list without one, the reply verifies. *)
+Theorem C08_reply_in_any_attribute_order_verifies :
+  forall md5raw secret reqauth code id,
+    length reqauth = 16%nat ->
+    (forall pre post, Forall (fun a => ma_like a = false) pre ->
+       let reply := sign_reply md5raw secret reqauth code id (pre ++ (80, zeros16) :: post) in
+       resp_auth_ok md5raw secret reqauth reply = true /\ ma_resp_ok md5raw secret reqauth reply = true /\
+       find_attr80 reply = Some (20 + length (enc_attrs pre) + 2)%nat) /\
+    (forall attrs, Forall (fun a => ma_like a = false) attrs ->
+       let reply := sign_reply md5raw secret reqauth code id attrs in
+       resp_auth_ok md5raw secret reqauth reply = true /\ ma_resp_ok md5raw secret reqauth reply = true).
+Proof.
+  intros md5raw secret reqauth code id H. split.
+  - intros pre post Hp. exact (sign_reply_with_ma_verifies md5raw secret reqauth code id pre post H Hp).
+  - intros attrs Hp. exact (sign_reply_without_ma_verifies md5raw secret reqauth code id attrs H Hp).
+Qed.
+Print Assumptions C08_reply_in_any_attribute_order_verifies.
+
+(* In the correspondence the model takes the reply the implementation sent ([orep]) when it is the model's reply up to
+   attribute order.  Whatever reply the generalised listener step emits is either the model's own (which verifies:
+   C08_own_replies_verify) or one that verifies and has a regular Message-Authenticator. *)
+Theorem C08_emitted_reply_verifies_any_order :
+  forall md5raw fl rej orep cfg now src bus raw cl st r ev,
+    coa_step_g md5raw fl rej orep cfg now src bus raw = OReply cl st r ev ->
+    exists m, coa_step md5raw fl cfg now src bus raw = OReply cl st m ev /\
+      (r = m \/ exists i c, find_client 0 (clients cfg) src = Some (i, c) /\
+                             resp_auth_ok md5raw (c_secret c) (sub 4 16 raw) r = true /\
+                             ma_resp_ok md5raw (c_secret c) (sub 4 16 raw) r = true /\
+                             ma_irregular r = false).
+Proof. exact coa_step_g_reply_verifies. Qed.
+Print Assumptions C08_emitted_reply_verifies_any_order.
+
+
 (* request with a Message-Authenticator attribute and a Proxy-State *)
 Definition ex_ma_req : bytes := [40; 9; 0; 46] ++ repeat 5 16 ++ [44; 4; 115; 49; 33; 4; 9; 9; 80; 18] ++ repeat 3 16.
 Example C08_own_replies_verify_nonvacuous :
@@ -475,6 +510,19 @@ Example C08_own_replies_verify_nonvacuous :
     find_attr80 reply = Some 32%nat /\ length reply = 48%nat.
 Proof. eexists. split; [vm_compute; reflexivity|]. vm_compute. split; reflexivity. Qed.
 Print Assumptions C08_own_replies_verify_nonvacuous.
+
+(* HEAD's order (Proxy-State, Error-Cause, Message-Authenticator) and the reverse (Message-Authenticator first) are both
+   admissible: the second is accepted in place of the first by the generalised step, a reply with a flipped
+   authenticator octet is not *)
+Definition ex_ma_first : bytes := sign_reply toy [107] (repeat 5 16) 41 9 [(80, zeros16); (33, [9; 9]); (101, [0; 0; 0; 201])].
+Example C08_reply_order_nonvacuous :
+  exists p, parse ex_ma_req = Some p /\
+    let m := build_coa_reply toy head [107] ex_ma_req p 41 201 in
+    m <> ex_ma_first /\
+    reply_equiv toy [107] (repeat 5 16) m ex_ma_first = true /\
+    reply_equiv toy [107] (repeat 5 16) m (set_at 4 ex_ma_first [1]) = false.
+Proof. eexists. split; [vm_compute; reflexivity|]. vm_compute. repeat split; try reflexivity. discriminate. Qed.
+Print Assumptions C08_reply_order_nonvacuous.
 
 (* before commit db29b2a (f_coaauth off): sendResponse — neither authenticator of the reply to a request with MA verifies *)
 Lemma C08_own_replies_verify_refuted :
